@@ -1,3 +1,4 @@
 CONSTANTS Scope = "thorough" Mutant = "none"
 SPECIFICATION Spec
 INVARIANT Emit
+CONSTRAINT EmitOnly
